@@ -331,6 +331,10 @@ class PartitioningPatternEncoder(PatternEncoderBase):
         if any(n.conns != [1] and n.conns != [0, 1] for n in tgt):
             return False
 
+        # The encoding takes the connection settings of the first target node for all of them
+        if any(n.conns != tgt[0].conns for n in tgt):
+            return False
+
         # Check if there are not too many connections asked for
         n_min_total = src[0].min_conns*len(src)
         if n_min_total > len(tgt):
